@@ -134,6 +134,17 @@ fn main() {
                 None => println!("none"),
             }
         }
+        Some("dbg-edge") => {
+            for (n, b) in props::c05::edge_encodings() {
+                for stable in [false, true] {
+                    let v = optable::validate_with(&b, optable::walrus_features(stable));
+                    let cfg = wal::Cfg { only_stable: stable, ..wal::Cfg::plain() }.to_config();
+                    let w = cfg.parse(&b).map(|_| ()).map_err(|e| format!("{:#}", e));
+                    println!("{:32} stable={} reference={:?} walrus={:?}", n, stable, v.is_ok(), w.is_ok());
+                    if v.is_ok() != w.is_ok() { println!("    ref: {:?}\n    wal: {:?}", v, w); }
+                }
+            }
+        }
         Some("dump-corpus") => {
             let dir = args.get(2).cloned().unwrap_or_else(|| usage());
             for (i, (_, b)) in corpus::all().iter().enumerate() {
